@@ -138,6 +138,7 @@ func recoverImage(c *Ctx, m *fsmodel.FS, opts dbOpts, keys []string, tape *simrt
 }
 
 func recoverDir(dir string, opts dbOpts, keys []string, tape *simrt.Tape, permute bool) *recovered {
+	Beat()
 	w := simrt.NewWorld(dir, tape)
 	w.PermuteUnlink = permute
 	defer simrt.Deactivate()
